@@ -544,4 +544,173 @@ theorem hasSlash_render (t s : Str) (ps : List Str) : hasSlash (renderMime t s p
   simp [hasSlash, renderMime]
 
 
+/-! ### lexing of `value;q=text` -/
+
+theorem isTokChar_props (c : Char) (h : isTokChar c = true) :
+    Py.isSpace c = false ∧ c ≠ ',' ∧ c ≠ '"' ∧ c ≠ ';' ∧ c ≠ '=' := by
+  unfold isTokChar at h
+  simp only [Bool.or_eq_true] at h
+  rcases h with (h | h) | h
+  · have hn : (65 ≤ c.toNat ∧ c.toNat ≤ 90) ∨ (97 ≤ c.toNat ∧ c.toNat ≤ 122) ∨ (48 ≤ c.toNat ∧ c.toNat ≤ 57) := by
+      simp only [Char.isAlphanum, Char.isAlpha, Char.isUpper, Char.isLower, Char.isDigit,
+        Bool.or_eq_true, Bool.and_eq_true, decide_eq_true_eq] at h
+      simp only [UInt32.le_iff_toNat_le] at h
+      have e : c.val.toNat = c.toNat := rfl
+      simp only [e] at h
+      rcases h with (h | h) | h
+      · left; exact ⟨h.1, h.2⟩
+      · right; left; exact ⟨h.1, h.2⟩
+      · right; right; exact ⟨h.1, h.2⟩
+    refine ⟨?_, ?_, ?_, ?_, ?_⟩
+    · simp only [Py.isSpace]; simp; omega
+    all_goals (intro e; subst e; revert hn; decide)
+  · have : c = '_' := by simpa using h
+    subst this
+    decide
+  · have : c ∈ tokPunct := by simpa using h
+    simp only [tokPunct, List.mem_cons, List.not_mem_nil, or_false] at this
+    rcases this with rfl | rfl | rfl | rfl | rfl | rfl | rfl | rfl | rfl | rfl | rfl | rfl | rfl | rfl <;> decide
+
+/-- a media range / tag / charset name as clients write it: token characters and `/` -/
+def IsValueText (v : Str) : Prop := v ≠ [] ∧ ∀ c ∈ v, isTokChar c = true ∨ c = '/'
+
+/-- a non-empty token -/
+def IsToken (v : Str) : Prop := v ≠ [] ∧ ∀ c ∈ v, isTokChar c = true
+
+theorem valueChar_props (c : Char) (h : isTokChar c = true ∨ c = '/') :
+    Py.isSpace c = false ∧ c ≠ ',' ∧ c ≠ '"' ∧ c ≠ ';' := by
+  rcases h with h | rfl
+  · have := isTokChar_props c h
+    exact ⟨this.1, this.2.1, this.2.2.1, this.2.2.2.1⟩
+  · decide
+
+theorem httpList_plain (s part : Str) (h : ∀ c ∈ s, c ≠ ',' ∧ c ≠ '"') (hne : part.reverse ++ s ≠ []) :
+    httpList s part false false = [part.reverse ++ s] := by
+  induction s generalizing part with
+  | nil =>
+    simp only [List.append_nil] at hne ⊢
+    have : part.isEmpty = false := by
+      cases part with
+      | nil => simp at hne
+      | cons _ _ => rfl
+    simp [httpList, this]
+  | cons c t ih =>
+    have hc := h c (by simp)
+    have h1 : (c == ',') = false := by simpa using hc.1
+    have h2 : (c == '"') = false := by simpa using hc.2
+    simp only [httpList, Bool.false_eq_true, ↓reduceIte, h1, h2]
+    rw [ih (c :: part) (fun x hx => h x (by simp [hx])) (by simp)]
+    simp
+
+/-- the header element `value;q=qtext` -/
+def qElement (v qs : Str) : Str := v ++ ';' :: 'q' :: '=' :: qs
+
+theorem qElement_chars (v qs : Str) (hv : IsValueText v) (hq : IsToken qs) :
+    ∀ c ∈ qElement v qs, Py.isSpace c = false ∧ c ≠ ',' ∧ c ≠ '"' := by
+  intro c hc
+  simp only [qElement, List.mem_append, List.mem_cons] at hc
+  rcases hc with hc | rfl | rfl | rfl | hc
+  · have := valueChar_props c (hv.2 c hc); exact ⟨this.1, this.2.1, this.2.2.1⟩
+  · decide
+  · decide
+  · decide
+  · have := isTokChar_props c (hq.2 c hc); exact ⟨this.1, this.2.1, this.2.2.1⟩
+
+theorem dropWhile_head_false'' {p : Char → Bool} {s : Str} (h : ∀ c, s.head? = some c → p c = false) :
+    s.dropWhile p = s := by
+  cases s with
+  | nil => rfl
+  | cons c t => simp [h c rfl]
+
+theorem strip_noSpace' (s : Str) (h : ∀ c ∈ s, Py.isSpace c = false) : Py.strip s = s := by
+  unfold Py.strip
+  rw [dropWhile_head_false'' (s := s) (fun c hc => h c (List.mem_of_mem_head? hc))]
+  exact rstrip_noSpace s h
+
+theorem parseListHeader_qElement (v qs : Str) (hv : IsValueText v) (hq : IsToken qs) :
+    parseListHeader (qElement v qs) = [qElement v qs] := by
+  have hch := qElement_chars v qs hv hq
+  unfold parseListHeader
+  rw [httpList_plain _ [] (fun c hc => ⟨(hch c hc).2.1, (hch c hc).2.2⟩) (by simp [qElement])]
+  simp only [List.reverse_nil, List.nil_append, List.map_cons, List.map_nil]
+  rw [strip_noSpace' _ (fun c hc => (hch c hc).1)]
+  have hh : (qElement v qs).head? ≠ some '"' := by
+    intro e
+    have := List.mem_of_mem_head? e
+    exact (hch '"' this).2.2 rfl
+  have : ((qElement v qs).head? == some '"') = false := by simpa using hh
+  simp [this]
+
+theorem takeWhile_all_then {p : Char → Bool} (x : Str) (c : Char) (rest : Str)
+    (hx : ∀ y ∈ x, p y = true) (hc : p c = false) :
+    (x ++ c :: rest).takeWhile p = x ∧ (x ++ c :: rest).dropWhile p = c :: rest := by
+  induction x with
+  | nil => simp [hc]
+  | cons a t ih =>
+    have := ih (fun y hy => hx y (by simp [hy]))
+    simp [hx a (by simp), this.1, this.2]
+
+theorem takeWhile_all {p : Char → Bool} (x : Str) (hx : ∀ y ∈ x, p y = true) :
+    x.takeWhile p = x ∧ x.dropWhile p = [] := by
+  induction x with
+  | nil => simp
+  | cons a t ih =>
+    have := ih (fun y hy => hx y (by simp [hy]))
+    simp [hx a (by simp), this.1, this.2]
+
+theorem paramParts_q (qs : Str) (hq : IsToken qs) (fuel : Nat) :
+    paramParts (fuel + 1) ('q' :: '=' :: qs) = [(qKey, qs)] := by
+  have hq1 : isTokChar 'q' = true := by decide
+  have he : isTokChar '=' = false := by decide
+  have hs : isTokChar ';' = false := by decide
+  have tq := takeWhile_all qs (p := isTokChar) hq.2
+  have hne : qs.isEmpty = false := by
+    cases qs with
+    | nil => exact absurd rfl hq.1
+    | cons _ _ => rfl
+  have hnosemi : ¬ (';' ∈ qs) := by
+    intro hm
+    have := hq.2 ';' hm
+    rw [hs] at this; cases this
+  have hl : lowerA ['q'] = qKey := by decide
+  simp [paramParts, hq1, he, tq.1, hne, hnosemi, hl]
+
+theorem processParts_q (qs : Str) (hq : IsToken qs) :
+    processParts [(qKey, qs)] [] = .ok [(qKey, qs)] := by
+  have hh : qs.head? ≠ some '"' := by
+    intro e
+    have := hq.2 '"' (List.mem_of_mem_head? e)
+    revert this; decide
+  have h1 : (qs.head? == some '"') = false := by simpa using hh
+  have h2 : continuationBase qKey = none := by decide
+  have h3 : (qKey.getLast? == some '*') = false := by decide
+  simp [processParts, h1, h2, h3, dictSet]
+
+theorem parseOptionsHeader_qElement (v qs : Str) (hv : IsValueText v) (hq : IsToken qs) :
+    parseOptionsHeader (qElement v qs) = .ok (v, [(qKey, qs)]) := by
+  have hvs : ∀ c ∈ v, (c != ';') = true := by
+    intro c hc
+    have := (valueChar_props c (hv.2 c hc)).2.2.2
+    simpa using this
+  have hsemi : ((';' : Char) != ';') = false := by decide
+  have tw := takeWhile_all_then (p := fun c => c != ';') v ';' ('q' :: '=' :: qs) hvs hsemi
+  have hsv := strip_noSpace' v (fun c hc => (valueChar_props c (hv.2 c hc)).1)
+  have hrest : ∀ c ∈ 'q' :: '=' :: qs, Py.isSpace c = false := by
+    intro c hc
+    simp only [List.mem_cons] at hc
+    rcases hc with rfl | rfl | hc
+    · decide
+    · decide
+    · exact (isTokChar_props c (hq.2 c hc)).1
+  have hsr := strip_noSpace' _ hrest
+  have hve : v.isEmpty = false := by
+    cases v with
+    | nil => exact absurd rfl hv.1
+    | cons _ _ => rfl
+  unfold parseOptionsHeader qElement
+  simp only [tw.1, tw.2, List.drop_succ_cons, List.drop_zero, hsv, hsr, hve, List.isEmpty_cons,
+    Bool.or_self, Bool.false_eq_true, ↓reduceIte, List.length_cons]
+  rw [paramParts_q qs hq, processParts_q qs hq]
+
+
 end Wz.Accept
